@@ -42,4 +42,9 @@ META = {
         "note": "Trusted: as C16. The 'hook applies process-wide' clause (dylib interposition) is not covered.",
         "design_ref": "DESIGN.md §4 C18",
     },
+    "C19": {
+        "text": "Refinement to the kernel's own option value: invariant 'every cached limit is the kernel's current value of a live socket' proved inductive over open (any descriptor number, reuse included) / setsockopt / hooked I/O / close, hence every hooked I/O of every well-formed history applies the current option value (C19_history). The model has no abort path. Tie: real sockets (socketpair), real descriptor reuse, hooked setsockopt/close, recv/send_time_limit compared with raw getsockopt after every op, each history in a forked child.",
+        "note": "Trusted: Lean kernel; cache model; the harness' raw getsockopt as the kernel truth; closes go through the hook.",
+        "design_ref": "DESIGN.md §4 C19",
+    },
 }
